@@ -808,6 +808,17 @@ func checkAccounting(nOps int, fib bool) func(x *rt.Exec) []mc.Fail {
 				}
 			}
 		}
+		// the ledger itself: whatever the server did, an operation that was handed over is still pending or has a
+		// terminal result - also the operations that were completed in the same response as a protocol violation
+		for id := uint64(1); id <= uint64(nOps); id++ {
+			pend := false
+			for _, pd := range f.pending {
+				pend = pend || pd == fmt.Sprintf("op%d", id)
+			}
+			if !pend && f.terminals[id] == 0 {
+				bad("C13/operation-lost", "plan %s: operation %d is neither pending nor represented by a terminal result (pending %v, results %v)", desc, id, f.pending, f.results)
+			}
+		}
 		for id, n := range f.terminals {
 			if n > 1 && p.violation != "duplicate-terminal" {
 				bad("C13/operation-completed-twice", "plan %s: operation %d has %d terminal results: %v", desc, id, n, f.results)
@@ -1138,7 +1149,9 @@ func checkFault(fc faultCase) func(x *rt.Exec) []mc.Fail {
 			}
 		}
 		if faultHit {
-			if f.awaitNil {
+			// (a receive fault BEYOND the traffic hits after every response has arrived: AwaitConverged may rightly
+			// have returned success before the error was recorded - the snapshot is taken after it returned)
+			if f.awaitNil && fc.index < 2+burst {
 				bad("C14/converged-despite-recorded-error", "%s: errors were recorded (send %d, recv %d) but AwaitConverged returned success", fc, f.sendErrs, f.recvErrs)
 			}
 			if done, _ := ev["done-signalled"].(bool); !done {
